@@ -1168,12 +1168,23 @@ func eq(lhs, rhs reflect.Value) bool {
 		return reflect.DeepEqual(lhs.Interface(), rhs.Interface())
 	}
 
+	// Two nulls are equal, whether they come from a literal or
+	// from the input (which represent null differently).
+	if isNull(lhs) || isNull(rhs) {
+		return isNull(lhs) && isNull(rhs)
+	}
+
 	// All other types (e.g. functions) are
 	// compared directly. Two functions with the same contents
 	// are not considered equal unless they're the same
 	// physical object in memory.
 
 	return lhs == rhs
+}
+
+func isNull(v reflect.Value) bool {
+	v = jtypes.Resolve(v)
+	return (v.Kind() == reflect.Ptr || v.Kind() == reflect.Interface) && v.IsNil()
 }
 
 func lt(lhs, rhs reflect.Value) bool {
